@@ -403,9 +403,13 @@ def frag_stmt(rng, depth):
         r = rng.random()
         if r < 0.6:
             return ('assign', rng.choice(FRAG_VARS), frag_expr(rng, rng.randint(0, 3), rng.choice(['int', 'int', 'bool'])))
-        if r < 0.75:
+        if r < 0.7:
             e = [frag_expr(rng, rng.randint(0, 2)), rng.choice([('num', 0), ('var', 'g1'), frag_expr(rng, 1)])]
             return ('call', 'put', e) if rng.random() < 0.5 else ('sys', 1, e)
+        if r < 0.78:
+            # a procedure call with call-free actuals
+            return rng.choice([('call', 'h', [frag_expr(rng, rng.randint(0, 2)), frag_expr(rng, rng.randint(0, 2), rng.choice(['int', 'bool']))]),
+                               ('call', 'h0', [])])
         if r < 0.85:
             return ('return', frag_expr(rng, rng.randint(0, 2), rng.choice(['int', 'bool'])))
         if r < 0.9:
@@ -448,6 +452,8 @@ def fragment_tie(ck, tools, scr, n):
         call = ('call', 'f', [('num', 5 + k) for k in range(nform)])
         prog = {'globals': glob,
                 'procs': [{'kind': kind, 'name': 'f', 'formals': forms, 'locals': locs, 'body': ('seq', body) if len(body) > 1 or rng.random() < 0.5 else body[0]},
+                          {'kind': 'proc', 'name': 'h', 'formals': [('val', 'a'), ('val', 'b')], 'locals': [], 'body': ('assign', 'g0', ('bin', '+', ('var', 'a'), ('var', 'b')))},
+                          {'kind': 'proc', 'name': 'h0', 'formals': [], 'locals': [], 'body': ('skip',)},
                           {'kind': 'proc', 'name': 'main', 'formals': [], 'locals': [],
                            'body': ('seq', [('assign', 'g0', ('num', 1)), ('assign', 'g1', ('num', 2)),
                                             ('sys', 0, [call]) if kind == 'func' else call])}]}
